@@ -20,7 +20,8 @@ Statement clause → theorem
 * "sort_values and set_index produce globally ordered results equal to pandas" → `sort_values_globally_ordered`,
   `sort_values_rows`, `sort_values_keys_eq_reference`, `sort_values_tasks`, `set_index_truthful`,
   `set_index_tasks_truthful`, `sort_values_disk`, `presorted_shortcut_sorted`, `presorted_shortcut_eq_full_path`,
-  `set_index_presorted_truthful`
+  `set_index_presorted_truthful`, `sort_values_multikey_globally_ordered` (several sort columns),
+  `set_partitions_pre_monotone`, `set_partitions_pre_nan`
 * "drop_duplicates, unique and nunique equal pandas for any partitioning, split_out and shuffle method" →
   `drop_duplicates_tree_eq`, `drop_duplicates_tasks_perm`, `drop_duplicates_keys_any_shuffle` (distinct keys =
   `unique` / `nunique`; `drop_duplicates_disk_keys` for the disk shuffle model), and FALSE as stated for arrival-order shuffles: `drop_duplicates_arrival_order_refuted`
@@ -395,6 +396,22 @@ theorem sort_values_globally_ordered (sh : List (List (Nat × β)) → Nat → L
       fun a b => keyLe asc naLast (key a) (key b) = true :=
   sortValuesWith_sorted sh sortp key divs asc naLast parts h2 hsound hsorted hmem
 
+/-- **sort_values on several columns** (`by=[c1, c2, …]`, one direction per column allowed): dask routes by the
+    FIRST column only and sorts every partition by all of them. For any total order `le` of the rows that refines
+    the order of the first column (e.g. the lexicographic order `lexLe`: `lexLe_refines`, `lexLe_total`), any sound
+    shuffle and any per-partition sort by `le`: the concatenation of the outputs is sorted by `le`. -/
+theorem sort_values_multikey_globally_ordered (sh : List (List (Nat × β)) → Nat → List (List (Nat × β)))
+    (sortp : List β → List β) (key : β → Option Nat) (le : β → β → Bool) (divs : List Nat) (asc naLast : Bool)
+    (parts : List (List β)) (h2 : 2 ≤ divs.length)
+    (hrefines : ∀ a b, le a b = true → keyLe asc naLast (key a) (key b) = true)
+    (htotal : ∀ a b, (le a b || le b a) = true)
+    (hsound : ∀ p out, (sh (parts.map (assignPartitions key divs asc naLast)) (divs.length - 1))[p]? = some out →
+      ∀ r ∈ out, r ∈ (parts.map (assignPartitions key divs asc naLast)).flatten ∧ r.1 = p)
+    (hsorted : ∀ l, (sortp l).Pairwise fun a b => le a b = true)
+    (hmem : ∀ l r, r ∈ sortp l → r ∈ l) :
+    (sortValuesWith sh sortp key divs asc naLast parts).flatten.Pairwise fun a b => le a b = true :=
+  sortValuesWith_sorted_refined sh sortp key le divs asc naLast parts h2 hrefines htotal hsound hsorted hmem
+
 /-- **sort_values keeps exactly the input rows** (multiset), given a multiset-preserving shuffle and sort -/
 theorem sort_values_rows (sh : List (List (Nat × β)) → Nat → List (List (Nat × β))) (sortp : List β → List β)
     (key : β → Option Nat) (divs : List Nat) (asc naLast : Bool) (parts : List (List β))
@@ -698,6 +715,14 @@ example : sortValuesTasks (fun r : Option Nat × Nat => r.1) [2, 5, 9] true true
 example : sortValuesTasks (fun r : Option Nat × Nat => r.1) [2, 5, 9] false false 2 2
     [[(some 7, 0), (none, 1)], [(some 1, 2)], [(some 5, 3), (some 7, 4)]] =
     [[(none, 1), (some 7, 0), (some 7, 4), (some 5, 3)], [(some 1, 2)]] := by decide
+-- two sort columns, first ascending, second descending, routed by the first one only (rows: (k1, k2, id)); the
+-- hypotheses of `sort_values_multikey_globally_ordered` hold for `le := lexLe …` and `sortp := isort le`
+-- (`lexLe_refines`, `lexLe_total`, `isort_lexLe_sorted`)
+example : sortValuesWith (fun ps n => taskShuffle ps n 2 2)
+    (isort (lexLe (fun r : Nat × Nat × Nat => some r.1) (fun r => some r.2.1) true false true))
+    (fun r : Nat × Nat × Nat => some r.1) [2, 5, 9] true true
+    [[(7, 1, 0), (3, 2, 1)], [(7, 4, 2), (1, 1, 3)], [(3, 5, 4), (7, 2, 5)]] =
+    [[(1, 1, 3), (3, 5, 4), (3, 2, 1)], [(7, 4, 2), (7, 2, 5), (7, 1, 0)]] := by decide
 -- set_index: divisions [1, 5, 9] span the keys 1 … 9 (hypotheses of `set_index_tasks_truthful`)
 example : Dask.Divs.Truthful (fun r : Nat × Nat => r.1) [1, 5, 9]
     (sortValuesTasks (fun r : Nat × Nat => some r.1) [1, 5, 9] true true 2 2 [[(7, 0), (9, 1)], [(1, 2)], [(5, 3), (4, 4)]]) :=
